@@ -48,6 +48,71 @@ def is_hash_ty(t):
     return t.startswith(HASH_TY) and not ("Iter<" in t.split("<")[0])
 
 
+
+def rule_enum_diagnostics(chk):
+    """Context::end_enum walked in both hash orders (the enumerators of an enum live in a HashMap) on rejected and
+    accepted model enums whose enumerators carry distinct source locations: result, error payload (location, range) and
+    every recorded value must be the same in both orders."""
+    import interp as I
+    f = chk.facts
+    fn = f.fn("end_enum", "rssl_typer")
+    if not fn:
+        return
+    opt = lambda v: I.Enum("Option", "None") if v is None else I.Enum("Option", "Some", {"0": v})
+    sloc = lambda n: I.Enum("SourceLocation", None, {"0": n})
+
+    def deref(v):
+        return v.get() if isinstance(v, I.Ref) else v
+    C = lambda k, v: I.Enum("Constant", k, {"0": v})
+    sets = {"two-above-int-and-negative": [C("IntLiteral", -1), C("IntLiteral", 0x90000000), C("IntLiteral", 0xA0000000), C("IntLiteral", 5)],
+            "both-ends": [C("IntLiteral", -2147483649), C("IntLiteral", 7), C("IntLiteral", 4294967296)], "accepted-uint": [C("IntLiteral", 3), C("IntLiteral", 4000000000), C("IntLiteral", 9)],
+            "accepted-int": [C("IntLiteral", -3), C("IntLiteral", 4), C("Int32", 9), C("Bool", True)]}
+
+    def norm(v):
+        if isinstance(v, I.Enum):
+            return (v.adt, v.variant, tuple((k, norm(x)) for k, x in sorted(v.fields.items())))
+        if isinstance(v, (list, tuple)):
+            return tuple(norm(x) for x in v)
+        return "opaque" if isinstance(v, I.Opaque) else v
+    for sname, vals in sets.items():
+        outs = []
+        unread = None
+        for reverse in (False, True):
+            evs = {i: I.Enum("EnumValue", None, {"value": c, "name": I.Enum("Located", None, {"node": "v%d" % i, "location": sloc(100 + 10 * i)})}) for i, c in enumerate(vals)}
+            updated = {}
+            ext = {"EnumRegistry::get_enum_value": lambda a, evs=evs: evs[deref(a[1]).fields["0"]],
+                   "EnumRegistry::get_enum_definition": lambda a: I.Enum("EnumDefinition", None, {"name": I.Enum("Located", None, {"node": "E", "location": sloc(50)})}),
+                   "EnumRegistry::set_underlying_type_id": lambda a, u=updated: u.__setitem__("type", deref(a[3]).variant) or (),
+                   "EnumRegistry::update_underlying_type": lambda a, u=updated: u.__setitem__(deref(a[1]).fields["0"], norm(deref(a[2]))) or (),
+                   "TypeRegistry::register_type": lambda a: I.Enum("TypeId", None, {"0": 50}), "Context::pop_scope": lambda a: ()}
+            sym = lambda i: [I.Enum("ScopeSymbol", "EnumValueUntyped", {"0": I.Enum("EnumValueId", None, {"0": i})})]
+            es, ps = I.HMap(), I.HMap()
+            for i in range(len(vals)):
+                es.put("v%d" % i, sym(i))
+                ps.put("v%d" % i, sym(i))
+            scopes = [I.Enum("ScopeData", None, {"symbols": ps, "parent_scope": 0, "owning_enum": opt(None)}),
+                      I.Enum("ScopeData", None, {"symbols": es, "parent_scope": 0, "owning_enum": opt(I.Enum("EnumId", None, {"0": 0}))})]
+            ctx = I.Enum("Context", None, {"scopes": scopes, "current_scope": 1, "module": I.Enum("Module", None, {"enum_registry": I.Opaque("enum registry"), "type_registry": I.Opaque("type registry")})})
+            ip = I.Interp(f, max_depth=6, extern=ext)
+            ip.reverse_hash_order = reverse
+            try:
+                r = ip.apply(fn, [ctx])
+                outs.append((norm(r), sorted((str(k), v) for k, v in updated.items())))
+            except I.Unknown as e:
+                if "panicking" in str(e):
+                    outs.append(("aborts", str(e)[:60]))
+                else:
+                    unread = str(e)[:100]
+                    break
+        key = "C07.enum/" + sname
+        if unread:
+            chk.unreadable(key, "Context::end_enum on a model enum", unread, where(fn))
+            continue
+        same = outs[0] == outs[1]
+        chk.ob(key, same, "same result and recorded values in both hash orders" if same else
+               "end_enum gives %s when the enumerator map is walked one way and %s the other way: the diagnostic (or the values) of the same source depends on the process's hash seed"
+               % (str(outs[0][0])[:160], str(outs[1][0])[:160]), where(fn), sample={"enum": sname})
+
 def run(chk):
     f = chk.facts
     cg = M.CallGraph(f)
@@ -58,6 +123,7 @@ def run(chk):
     chk.floor("C07.floor/reachable", len([p for p in reach if p in f.bodies]), 700, "workspace functions reachable from compile")
     rule_ambient(chk, cg, comp, reach)
     rule_hash(chk, reach)
+    rule_enum_diagnostics(chk)
 
 
 def rule_ambient(chk, cg, comp, reach):
@@ -299,6 +365,15 @@ def hash_ordered_vec_consumers(b, loop, all_loops):
             if isinstance(x, dict) and x.get("k") in ("Return", "Break") and id(x) not in desugared:
                 out.append((vecs[v["id"]], "the point where the loop is left (%s)" % ("return" if x["k"] == "Return" else "break")))
                 break
+    # positional queries on the hash-ordered Vec: which element is "the first that ..." depends on the order
+    POSITIONAL = {"find", "find_map", "position", "rposition", "first", "last", "next", "nth", "first_mut", "last_mut", "split_first", "split_last"}
+    if vecs and isinstance(b, dict) and "thir" in b:
+        for c in F.exprs(b["thir"], "Call"):
+            nm = short(c.get("fn") or "")
+            if nm in POSITIONAL and c.get("args"):
+                rv = F.leftmost_var(c["args"][0])
+                if rv is not None and rv["id"] in vecs and not any(c is y for y in F.walk(body)):
+                    out.append((vecs[rv["id"]], "`%s` on it (which element comes first)" % nm))
     return out
 
 
